@@ -3,7 +3,7 @@ import enum
 
 from pyvc.sym import PyDict
 from pyvc.engine import Unit, Obligation, outcome_of
-from pyvc.interp import Ctx, Frame
+from pyvc.interp import Ctx, Frame, EnvObj
 from .common import func, cls, P, real_enum
 
 PROP = "C19"
@@ -27,6 +27,25 @@ def module_const(ip, modname, name, ctx):
     return ip.static_value(r, ctx)
 
 
+def interp_for(unit):
+    from pyvc.engine import make_interp
+    ip = make_interp()
+    if not hasattr(ip, "env_handlers"):
+        ip.env_handlers = {}
+
+    def anyvalue(ip_, o, name, args, kw, ctx):
+        # an arbitrary field value: truthiness and equality are unknown (environment choice), nothing else is offered
+        if name == "__bool__":
+            return bool(ctx.fork(2))
+        if name in ("__eq__", "__ne__"):
+            return bool(ctx.fork(2))
+        if name == "__len__":
+            return [0, 1, 7][ctx.fork(3)]
+        return NotImplemented
+    ip.env_handlers["anyvalue"] = anyvalue
+    return ip
+
+
 def units(tier):
     u = {}
     DT = real_enum("aioswitcher.device", "DeviceType")
@@ -34,21 +53,21 @@ def units(tier):
     DS = real_enum("aioswitcher.device", "DeviceState")
 
     def guards(ip, ctx):
-        obs = []
-        for cname, cat in CLASS_CATEGORY.items():
-            c = cls("aioswitcher.device." + cname)
-            nargs = len([f for f in c.dataclass_fields() if f[3]])
-            for t in DT:
-                args = [t, DS.ON] + ["x"] * (nargs - 2)
-                ob = outcome_of(lambda: ip.instantiate(c, args, {}, ctx))
-                should_accept = t.category.name == cat
-                if should_accept:
-                    ok = ob[0] == "ret" and ob[1].attrs.get("device_type") is t
-                else:
-                    ok = ob[0] == "exc" and ob[1].cls == "ValueError"
-                obs.append(Obligation(f"{PROP}/{cname}/{t.name}/" + ("accepts" if should_accept else "refuses"), ctx, bool(ok),
-                                      note=f"outcome {ob[0]} {ob[1] if ob[0] == 'exc' else ''}"))
-        return obs
+        # one (class, device type) pair per path family, so that forks caused by a guard that looks at field values do not multiply
+        pairs = [(cname, cat, t) for cname, cat in CLASS_CATEGORY.items() for t in DT]
+        cname, cat, t = pairs[ctx.fork(len(pairs))]
+        c = cls("aioswitcher.device." + cname)
+        nargs = len([f for f in c.dataclass_fields() if f[3]])
+        # every other field holds an arbitrary value: anything the guard does with it (truth test, comparison) forks
+        args = [t, DS.ON] + [EnvObj("anyvalue", n=i) for i in range(nargs - 2)]
+        ob = outcome_of(lambda: ip.instantiate(c, args, {}, ctx))
+        should_accept = t.category.name == cat
+        if should_accept:
+            ok = ob[0] == "ret" and ob[1].attrs.get("device_type") is t
+        else:
+            ok = ob[0] == "exc" and ob[1].cls == "ValueError"
+        return [Obligation(f"{PROP}/{cname}/{t.name}/" + ("accepts" if should_accept else "refuses"), ctx, bool(ok),
+                           note=f"outcome {ob[0]} {ob[1] if ob[0] == 'exc' else ''}")]
     u["class_guards"] = Unit("class_guards", PROP, guards,
                              functions=["aioswitcher.device." + c + ".__post_init__" for c in CLASS_CATEGORY])
 
